@@ -139,10 +139,42 @@ def case_hash(case):
 # ----------------------------------------------------------------------------
 # clause + recorder
 
+# Clauses that are also driven by the coverage-guided engine (cheap cases only: the instrumented library runs ~2x slower
+# and libFuzzer needs tens of thousands of executions to pay off):
+#   name -> (decoded cases per shard quick, thorough, shards quick, shards thorough)
+FUZZ_TABLE = {
+    'C01.short': (400, 8000, 2, 8),
+    'C04.differential': (400, 8000, 2, 8),
+    'C04.vanish': (400, 8000, 2, 8),
+    'C05.random': (800, 20000, 2, 8),
+    'C09.roundtrip': (800, 20000, 1, 4),
+    'C09.sinusoid': (400, 8000, 1, 4),
+    'C10.random': (800, 20000, 2, 8),
+    'C11.random': (800, 20000, 2, 8),
+    'C12.synth': (800, 20000, 2, 8),
+    'C12.short': (1500, 40000, 2, 8),
+    'C13.mask': (800, 20000, 2, 8),
+    'C13.is_good': (1000, 30000, 1, 4),
+    'C13.container': (800, 20000, 2, 8),
+    'C14.stat': (800, 20000, 2, 6),
+    'C14.bin': (800, 20000, 1, 4),
+    'C14.align': (400, 8000, 1, 4),
+    'C14.stat_object': (600, 10000, 1, 4),
+    'C15.machine': (300, 6000, 2, 8),
+    'C16.large': (100, 2000, 2, 8),
+    'C17.valid': (800, 20000, 2, 8),
+    'C17.sequence': (300, 6000, 1, 4),
+    'C18.paths': (600, 15000, 2, 8),
+    'C19.vector': (300, 6000, 2, 8),
+    'C19.lengths': (300, 6000, 2, 8),
+    'C19.reuse': (200, 4000, 2, 8),
+}
+
+
 class Clause:
     def __init__(self, name, oracle, strategy=None, enumerate=None,
                  quick=1000, thorough=20000, shards=(4, 16), nt_rule='',
-                 exhaustive=False, max_shards=None):
+                 exhaustive=False, max_shards=None, fuzz=None):
         self.name = name
         self.oracle = oracle
         self.strategy = strategy
@@ -152,6 +184,9 @@ class Clause:
         self.shards = shards
         self.nt_rule = nt_rule
         self.exhaustive = exhaustive
+        # coverage-guided second engine: (valid cases per shard quick, thorough, shards quick, shards thorough) - the same
+        # strategy and oracle, with libFuzzer (atheris) choosing the bytes Hypothesis decodes and emd instrumented for coverage
+        self.fuzz = fuzz if fuzz is not None else FUZZ_TABLE.get(name)
 
     def budget(self, tier):
         return self.quick if tier == 'quick' else self.thorough
